@@ -222,6 +222,31 @@ class BlockParser:
 		return index
 
 	@classmethod
+	def _find_block_begin(cls, text: str, brackets: str, begin: int) -> int:
+		"""ブロックの括弧(開)の位置を検索。エントリーの名前部分に含まれる対象外のブロック・文字列の内部は検索しない
+
+		Args:
+			text: 解析対象の文字列
+			brackets: 括弧のペア
+			begin: エントリーの開始位置
+		Returns:
+			括弧(開)の位置。存在しない場合は-1
+		"""
+		other_tokens = ''.join([pair for pair in cls._all_pair if pair != brackets])
+		index = begin
+		while index < len(text):
+			if text[index] in other_tokens:
+				index = cls._skip_other_block(text, other_tokens, index)
+				continue
+
+			if text[index] == brackets[0]:
+				return index
+
+			index += 1
+
+		return -1
+
+	@classmethod
 	def _parse_block(cls, text: str, brackets: str, delimiter: str, begin: int, depth: int) -> tuple[int, list[Entry]]:
 		"""ブロックを解析
 
@@ -261,7 +286,7 @@ class BlockParser:
 		blocks = []
 		for entry in [root, *root.unders()]:
 			if entry.kind == Kinds.Block:
-				block_begin = text.find(brackets[0], entry.begin)
+				block_begin = cls._find_block_begin(text, brackets, entry.begin)
 				blocks.append(text[block_begin:entry.end])
 
 		return blocks
@@ -294,7 +319,7 @@ class BlockParser:
 			ブロックフォーマッター
 		"""
 		def to_formatter(entry: Entry) -> BlockFormatter:
-			end = text.find(brackets[0], entry.begin)
+			end = cls._find_block_begin(text, brackets, entry.begin)
 			formatter = BlockFormatter(text[entry.begin:end], brackets, delimiter)
 			for in_entry in entry.entries:
 				if in_entry.kind == Kinds.Block:
